@@ -51,6 +51,12 @@ func main() {
 		mon.C14Sig(ver, os.Args[3])
 		return
 	}
+	if len(os.Args) >= 6 && os.Args[1] == "C14cold" {
+		seed, _ := strconv.ParseInt(os.Args[3], 10, 64)
+		idx, _ := strconv.Atoi(os.Args[5])
+		mon.C14Cold(os.Args[4], os.Args[2], seed, idx)
+		return
+	}
 	if len(os.Args) >= 5 && os.Args[1] == "C14child" {
 		seed, _ := strconv.ParseInt(os.Args[3], 10, 64)
 		mon.C14Child(os.Args[4], os.Args[2], seed)
